@@ -170,6 +170,9 @@ func vxConversation(maxN int) {
 		}
 		responses := 0
 		for _, f := range frames {
+			if f.Method == "window/showMessage" && m.wellReq && !strings.Contains(m.raw, "[1,2]") {
+				vx.Assertf("C18.notification_processed", !bytes.Contains(f.Params, []byte("Failed to process")), "well-formed %s was not processed: %s", m.method, f.Params)
+			}
 			vx.Assertf("C18.jsonrpc_version", f.JSONRPC == "2.0", "frame without jsonrpc 2.0: %+v", f)
 			if f.Method != "" {
 				continue // a notification from the server
@@ -184,6 +187,21 @@ func vxConversation(maxN int) {
 			vx.Assertf("C18.one_response", responses == 1, "request %s got %d responses", m.raw, responses)
 		} else {
 			vx.Assertf("C18.no_response_to_notification", responses == 0, "message without id %s got %d responses", m.raw, responses)
+		}
+		// a notification that opens or changes a document is followed by diagnostics for that document
+		if !m.hasID && (m.method == "textDocument/didOpen" || m.method == "textDocument/didChange") {
+			if _, open := s.Documents().GetContent(vxURI); open {
+				published := false
+				for _, f := range frames {
+					if f.Method == "textDocument/publishDiagnostics" {
+						var d vxDiagParams
+						if json.Unmarshal(f.Params, &d) == nil && d.URI == vxURI {
+							published = true
+						}
+					}
+				}
+				vx.Assertf("C18.diagnostics_published", published, "%s was processed but no diagnostics were published for the document", m.method)
+			}
 		}
 		// diagnostics published in this step describe the mirror's current text
 		for _, f := range frames {
